@@ -284,9 +284,15 @@ def vec_nodes(n=3, full=True):
             ("msum", ("mbin", "*", ("mslice", T3, (None, None, -1), al), ("mT", ("mslice", T3, (None, None, -1), al)))),
             ("msum", ("mbin", "*", ("mslice", T3, (1, 3, None), (0, 2, None)), ("arr2", [[1.0, 2.0], [3.0, ("sym", "c")]]))),
             ("vsum", ("mrow", ("mT", ("mslice", T3, al, (None, None, -1))), 0)),
+            # quadratic forms whose matrix has another dtype (boolean adjacency mask, unsigned integers)
+            ("quad", v, [[float((i <= j) or (i == n - 1 and j == 0)) for j in range(n)] for i in range(n)], "bool"),
+            ("quad", v, [[float((i * 2 + j) % 3) for j in range(n)] for i in range(n)], "uint8"),
             # x.dot(Q @ y) where x and y are different views that PRINT alike (quadratic-form pattern match)
             ("dot", ("slice", v, 0, n, None), ("matvec", [[(("sym", "a11") if (i, j) == (1, 1) else float(((i * 2 + j * 3) % 5) - 2)) for j in range(n)] for i in range(n)], ("slice", v, None, None, -1))),
             ("dot", ("mrowpart", ("mat", "R", 1, 4), 0, (0, 2, None)), ("matvec", [[1.0, 2.0], [("sym", "a11"), 4.0]], ("mrowpart", ("mat", "R", 1, 4), 0, (2, 4, None)))),
+            # a constant vector applied to a matrix-vector product from the right / the left
+            ("lincomb", [("sym", "k0"), 2.0, -1.0], ("matvec", A, ("slice", v, 0, 2, None)), "right") if n >= 2 else ("vsum", v),
+            ("lincomb", [2.0, ("sym", "k0"), -1.0], ("matvec", A, ("slice", v, 0, 2, None))) if n >= 2 else ("vsum", v),
             # Python lists on the LEFT of matrix / vector operators
             ("msum", ("mrbin", "/", ("lst2", [[1.0, 2.0], [3.0, ("sym", "c")]]), M)),
             ("msum", ("mrbin", "*", ("lst2", [[1.0, 2.0], [3.0, ("sym", "c")]]), ("mbin", "+", M, ("sc", 2.0)))),
@@ -400,7 +406,29 @@ def random_recipes(seed, count, depth=3):
             return ("bin", "**", gen(d - 1), ("const", rng.choice([0, 1, 2, 3, -1, 0.5])))
         return ("bin", op, gen(d - 1), gen(d - 1))
 
-    return [gen(depth) for _ in range(count)]
+    def pure_number(r):
+        """no Expression below r: the API would compute a Python number (possibly complex), not build a tree"""
+        if r[0] in ("num",):
+            return True
+        if r[0] == "bin":
+            return pure_number(r[2]) and (r[3][0] == "const" and not isinstance(r[3][1], tuple) or pure_number(r[3]))
+        return False
+
+    def has_pure_power(r):
+        """a sub-term number ** number (e.g. (-1.0) ** 0.5 is complex in Python): not a formula over the reals"""
+        if not isinstance(r, tuple) or not r or not isinstance(r[0], str):
+            return False
+        if r[0] == "bin" and r[1] == "**" and pure_number(r[2]):
+            return True
+        return any(has_pure_power(e) for e in r[1:] if isinstance(e, tuple))
+
+    out = []
+    while len(out) < count:
+        r = gen(depth)
+        if pure_number(r) or has_pure_power(r):
+            continue
+        out.append(r)
+    return out
 
 
 def variable_orders(used, extra=("u0", "u1"), tier="quick"):
@@ -492,9 +520,13 @@ def decide(claim, pc, dom, what, sig, payload, allv, qt, weak_sat=False):
         mv = smt.model_values(v.model, allv)
         pl = dict(payload)
         pl["values"] = {k: str(x) for k, x in mv.items()}
+        if v.alt_model is not None:
+            pl["values_alt"] = {k: str(x) for k, x in smt.model_values(v.alt_model, allv).items()}
         r = violation(sig, what, pl)
         if v.solver.endswith("weak"):
             r["weak"] = True
+        if v.tiny:
+            r["rounding_level"] = True
         return r
     return inconclusive("unknown: " + what)
 
